@@ -217,25 +217,61 @@ class SctpOrigin(Component):
 
     def cases(self, rng, tier):
         from harness import sctp_check as S
-        n, steps = (30, 200) if tier == "quick" else (300, 450)
+        n, steps = (64, 200) if tier == "quick" else (320, 450)
         out = []
         for i in range(n):
-            prof = ["reorder-frag", "reliable", "reorder-frag", "mixed-pr", "reorder-frag", "lifecycle"][i % 6]
-            c = S.make_case(rng, prof, steps, wrap=False)
-            c["tsnA"], c["tsnB"] = rng.randrange(1, 1000), rng.randrange(1, 1000)
-            # regenerate the schedule for these origins (ops are index based, independent of TSN values)
+            prof = ["reorder-frag", "expiry", "mixed-pr", "strike", "expiry", "lifecycle", "expiry", "reliable"][i % 8]
             from harness import sctp_world as W
-            c["ops"] = W.random_ops(rng, dict(tagA=c["tagA"], tagB=c["tagB"], tsnA=c["tsnA"], tsnB=c["tsnB"]), steps, S.PROFILES[prof])
+            if prof in ("strike", "expiry"):
+                # directed schedules around giving up partially reliable messages (FORWARD TSN carries stream sequence numbers)
+                c = (S.make_strike_case if prof == "strike" else S.make_expiry_case)(rng, False)
+                c["tsnA"], c["tsnB"] = rng.randrange(1, 1000), rng.randrange(1, 1000)
+            else:
+                c = S.make_case(rng, prof, steps, wrap=False)
+                c["tsnA"], c["tsnB"] = rng.randrange(1, 1000), rng.randrange(1, 1000)
+                # regenerate the schedule for these origins (ops are index based, independent of TSN values)
+                c["ops"] = W.random_ops(rng, dict(tagA=c["tagA"], tagB=c["tagB"], tsnA=c["tsnA"], tsnB=c["tsnB"]), steps, S.PROFILES[prof])
             c["shiftA"] = 2**32 - c["tsnA"] - rng.randrange(1, 60)
             c["shiftB"] = 2**32 - c["tsnB"] - rng.randrange(1, 60)
+            # origin of the 16-bit stream sequence numbers of every stream (both directions, also after a stream
+            # reset): a few messages below 2^16 in the shifted run
+            c["ssn"] = 65536 - rng.randrange(1, 6) if i % 3 else 0
+            if prof in ("strike", "expiry"):
+                # short schedules: try every position of the wrap within the first messages of a stream
+                c["ssn"] = [65535, 65534, 65533, 65532, 65531, 65530]
             out.append(c)
         return out
 
     @staticmethod
-    def _history(case, tsnA, tsnB):
+    def _history(case, tsnA, tsnB, ssn=0):
         from harness import sctp_world as W
-        w = W.World(dict(case, tsnA=tsnA, tsnB=tsnB)).run()
-        healed = w.heal(4000)
+        w = W.World(dict(case, tsnA=tsnA, tsnB=tsnB))
+        restore = None
+        if ssn:
+            # white-box origin shift: a stream that has no state yet starts at `ssn` instead of 0, on the sending side
+            # (`_outbound_stream_seq.get(sid, 0)`) and on the receiving side (`InboundStream().sequence_number`)
+            class _Seq(dict):
+                def get(self, k, default=None):
+                    return dict.get(self, k, ssn if default == 0 else default)
+            m = w.ep["A"].m
+            cls = getattr(m, "InboundStream", None)
+            ok = cls is not None and all(isinstance(getattr(w.ep[n].t, "_outbound_stream_seq", None), dict) for n in "AB")
+            if ok:
+                for n in "AB":
+                    w.ep[n].t._outbound_stream_seq = _Seq(w.ep[n].t._outbound_stream_seq)
+                orig_init = cls.__init__
+
+                def init(self, *a, **k):
+                    orig_init(self, *a, **k)
+                    self.sequence_number = ssn
+                cls.__init__ = init
+                restore = lambda: setattr(cls, "__init__", orig_init)
+        try:
+            w.run()
+            healed = w.heal(4000)
+        finally:
+            if restore:
+                restore()
         hist = []
         for n in "AB":
             evs = []
@@ -248,14 +284,18 @@ class SctpOrigin(Component):
 
     def impl(self, case):
         h0, a, n0 = self._history(case, case["tsnA"], case["tsnB"])
-        h1, b, n1 = self._history(case, (case["tsnA"] + case["shiftA"]) % 2**32, (case["tsnB"] + case["shiftB"]) % 2**32)
-        if (h0, a) == (h1, b):
-            return f"same healed={h0} deliveries={n0}"
-        for side in (0, 1):
-            for k, (x, y) in enumerate(zip(a[side], b[side])):
-                if x != y:
-                    return f"differ endpoint={'AB'[side]} item={k} small={x[:160]} wrapped={y[:160]}"
-        return f"differ healed {h0} vs {h1} or length"
+        ssns = case.get("ssn", 0)
+        for ssn in (ssns if isinstance(ssns, list) else [ssns]):
+            h1, b, n1 = self._history(case, (case["tsnA"] + case["shiftA"]) % 2**32, (case["tsnB"] + case["shiftB"]) % 2**32,
+                                      ssn=ssn)
+            if (h0, a) == (h1, b):
+                continue
+            for side in (0, 1):
+                for k, (x, y) in enumerate(zip(a[side], b[side])):
+                    if x != y:
+                        return f"differ (first stream sequence number {ssn}) endpoint={'AB'[side]} item={k} small={x[:160]} wrapped={y[:160]}"
+            return f"differ (first stream sequence number {ssn}) healed {h0} vs {h1} or length"
+        return f"same healed={h0} deliveries={n0}"
 
     def oracle(self, case, impl_out):
         if impl_out.startswith("same"):
@@ -263,7 +303,7 @@ class SctpOrigin(Component):
         return "SCTP association behaves differently when its sequence numbers wrap: " + impl_out
 
     def label(self, case, impl_out):
-        return case.get("profile", "?") + ("" if impl_out.startswith("same") else "-DIFF")
+        return case.get("profile", "?") + ("+ssn" if case.get("ssn") else "") + ("" if impl_out.startswith("same") else "-DIFF")
 
     def nontrivial(self, case, impl_out):
         return "deliveries=0" not in impl_out
